@@ -1484,6 +1484,10 @@ namespace ipr {
 
       void visit(const Type& t) final
       {
+         // A compound type without a syntax of its own here is named by a Type_id designating
+         // that very type: printing the name would come straight back, forever.
+         if (auto id = util::view<Type_id>(t.name()); id != nullptr and physically_same(id->type_expr(), t))
+            Missing_overrider{ }(t);
          // FIXME: Check.
          pp << xpr_name(t.name());
       }
